@@ -24,14 +24,15 @@ CFG = dict(
                  "daemon before PolicyTable is called",
                  "order of policies after add_assignment and error codes of refused calls are not judged"],
     floor=dict(evaluations=30000, nontrivial=6000,
-               counters={"unit:judged": 2500, "eval:judged": 3000, "crud:judged": 600,
-                         "clause:actions-accumulated": 600, "clause:accept-by-statement": 1200,
-                         "clause:reject-by-statement": 1500, "clause:default-disposition": 3000,
-                         "path:has-empty-segment": 1500, "path:over-255-hops": 300, "path:no-attribute": 300,
-                         "path:zero-length": 300, "path:segment-type-1": 800, "path:segment-type-3": 800,
-                         "path:segment-type-4": 500, "route-source:wire-decoder": 4000,
-                         "crud:histories": 200, "crud:referenced:refused": 300,
-                         "crud:op-on-unreferenced-entity": 1000, "crud:live-assignment-rechecks": 1000,
+               counters={"unit:judged": 2500, "eval:judged": 3000, "crud:judged": 3000,
+                         "clause:actions-accumulated": 1000, "clause:accept-by-statement": 1400,
+                         "clause:reject-by-statement": 2000, "clause:default-disposition": 6000,
+                         "path:has-empty-segment": 600, "path:over-255-hops": 300, "path:no-attribute": 300,
+                         "path:zero-length": 500, "path:segment-type-1": 600, "path:segment-type-3": 600,
+                         "path:segment-type-4": 500, "path:undefined-segment-type(api)": 50,
+                         "route-source:wire-decoder": 4000, "route-source:attribute-api": 3000,
+                         "crud:histories": 200, "crud:referenced:refused": 600,
+                         "crud:op-on-unreferenced-entity": 900, "crud:live-assignment-rechecks": 6000,
                          "unit:option:as-path-set:all": 10, "unit:option:community-set:invert": 10,
                          "unit:option:prefix-set:invert": 15}),
     quick=[e1("all", "c14", "debug", 1, 40), e1("all", "c14", "release", 1, 40)],
